@@ -110,19 +110,66 @@ def run_driver(lines: list[str], timeout: float = 600.0) -> list[list[str]]:
     return [[dec(f) for f in ln.split("\t")] for ln in out]
 
 
-def run_driver_split(lines: list[str], timeout: float = 240.0, single_timeout: float = 20.0) -> list[list[str]]:
-    """Like run_driver, but a batch that exceeds `timeout` is bisected until the slow request is isolated; a single request
-    that exceeds `single_timeout` is answered `["err", "timeout"]` (the model has no per-case clock of its own; callers count
-    these and never treat them as a verdict)."""
+def run_driver_split(lines: list[str], timeout: float = 240.0, single_timeout: float = 4.0) -> list[list[str]]:
+    """Like run_driver, but with a per-request clock: the driver is kept as a session (one request written, one reply awaited);
+    a request that does not answer within `single_timeout` seconds is answered `["err", "timeout"]` and the driver is
+    restarted.  The model has no clock of its own (the real code memoises cnf/dnf, the model recomputes them), callers count
+    these and never treat them as a verdict.  `timeout` is kept for signature compatibility."""
+    import select
     if not lines:
         return []
+    if not DRIVER.exists():
+        raise DriverError("driver executable missing (build failed?)")
+    out: list[list[str]] = []
+    proc = None
+
+    def start() -> subprocess.Popen:  # type: ignore[type-arg]
+        return subprocess.Popen([str(DRIVER)], stdin=subprocess.PIPE, stdout=subprocess.PIPE, stderr=subprocess.DEVNULL)
+
     try:
-        return run_driver(lines, timeout=timeout if len(lines) > 1 else single_timeout)
-    except subprocess.TimeoutExpired:
-        if len(lines) == 1:
-            return [["err", "timeout"]]
-        mid = len(lines) // 2
-        return run_driver_split(lines[:mid], timeout, single_timeout) + run_driver_split(lines[mid:], timeout, single_timeout)
+        proc = start()
+        buf = b""
+        for ln in lines:
+            assert proc.stdin is not None and proc.stdout is not None
+            try:
+                proc.stdin.write(ln.encode("ascii") + b"\n")
+                proc.stdin.flush()
+            except BrokenPipeError as e:
+                raise DriverError("driver died: " + str(e)) from e
+            deadline = time.time() + single_timeout
+            reply = None
+            while True:
+                nl = buf.find(b"\n")
+                if nl >= 0:
+                    reply, buf = buf[:nl], buf[nl + 1:]
+                    break
+                left = deadline - time.time()
+                if left <= 0:
+                    break
+                r, _, _ = select.select([proc.stdout], [], [], left)
+                if not r:
+                    break
+                chunk = os.read(proc.stdout.fileno(), 1 << 16)
+                if not chunk:
+                    raise DriverError("driver closed its output")
+                buf += chunk
+            if reply is None:
+                proc.kill()
+                proc.wait()
+                proc = start()
+                buf = b""
+                out.append(["err", "timeout"])
+            else:
+                out.append([dec(f) for f in reply.decode("ascii", "replace").split("\t")])
+    finally:
+        if proc is not None:
+            try:
+                proc.stdin.close()  # type: ignore[union-attr]
+            except Exception:  # noqa: BLE001
+                pass
+            proc.kill()
+            proc.wait()
+    return out
 
 
 # ----------------------------------------------------------------------------------------
